@@ -42,6 +42,42 @@ def import_trie():
     return trie
 
 
+# ---------------------------------------------------------------------------
+# source fingerprint (tools/fingerprint.py): has the modelled source changed since the models were written?
+
+RELEVANT = {   # modelled file -> properties whose model follows it
+    "trie/hexary.py": "C01 C02 C03 C04 C05 C06 C07 C08 C09 C10 C18",
+    "trie/utils/nodes.py": "C01 C02 C03 C04 C05 C06 C07 C08 C09 C10 C12 C13 C16",
+    "trie/utils/nibbles.py": "C01 C02 C03 C04 C05 C06 C07 C08 C09 C10 C11 C16",
+    "trie/utils/db.py": "C04 C05 C06 C17 C01",
+    "trie/exceptions.py": "C03 C07 C08 C09 C10 C11 C12 C13",
+    "trie/fog.py": "C09 C10 C11 C18",
+    "trie/iter.py": "C10",
+    "trie/binary.py": "C12 C13 C18",
+    "trie/branches.py": "C13 C18",
+    "trie/utils/binaries.py": "C12 C13 C16",
+    "trie/smt.py": "C14 C15 C18",
+    "trie/typing.py": "C08 C09 C10 C11 C18",
+}
+ESCALATION = {"changed": {}, "previous_runs": []}
+
+
+def source_changed(prop):
+    """{file: [changed functions]} for the modelled files relevant to `prop` (files not listed in RELEVANT, e.g.
+    validation.py, constants.py or a new module, are relevant to every property). Empty on the unchanged tree."""
+    sys.path.insert(0, os.path.join(VERIF, "tools"))
+    try:
+        import fingerprint as FP
+    finally:
+        sys.path.pop(0)
+    try:
+        recorded = json.load(open(os.path.join(VERIF, "harness", "source_fingerprint.json")))
+    except (OSError, ValueError):
+        return {"harness/source_fingerprint.json": ["<missing>"]}
+    d = FP.diff(recorded, FP.fingerprint(REPO))
+    return {f: names for f, names in d.items() if prop in RELEVANT.get(f, prop)}
+
+
 # exception tags, shared with coq/theories/Base/Result.v
 EXC_TAGS = {
     "ValidationError": 1, "InvalidNode": 2, "InvalidNibbles": 3, "BadTrieProof": 4,
@@ -61,6 +97,23 @@ class Abort(Exception):
     """Injected exception inside a batch."""
 
 
+class AbortBase(BaseException):
+    """Injected exception inside a batch that is NOT an `Exception` (like KeyboardInterrupt, SystemExit, GeneratorExit or
+    asyncio.CancelledError): a block left by it has been left by an exception all the same."""
+
+
+def in_ambient(ctx, f):
+    """Run f() in the calling context `ctx`: "plain", or "handler" = while the caller is handling an exception (so that
+    sys.exc_info() is not empty when the library code runs: a context manager that consults it to decide whether its block
+    failed must not be misled by the caller's exception)."""
+    if ctx == "handler":
+        try:
+            raise LookupError("ambient exception being handled by the caller")
+        except LookupError:
+            return f()
+    return f()
+
+
 class FailingDict(dict):
     """dict whose (n+1)-th __setitem__ raises WriteFail (budget=None: never)."""
 
@@ -69,6 +122,7 @@ class FailingDict(dict):
         self.budget = None
         self.writes = 0
         self.reads = 0
+        self.log = None          # when a list: the keys written, in order
 
     def __setitem__(self, k, v):
         if self.budget is not None:
@@ -76,6 +130,8 @@ class FailingDict(dict):
                 raise WriteFail()
             self.budget -= 1
         self.writes += 1
+        if self.log is not None:
+            self.log.append(bytes(k))
         super().__setitem__(k, v)
 
     def __getitem__(self, k):
@@ -104,6 +160,8 @@ class Exc:
 def exc_obs(e, with_attrs=True):
     """Canonical observation of an exception raised by the implementation."""
     name = type(e).__name__
+    if name == "AbortBase":
+        name = "Abort"          # the model has one way of leaving a block by an exception
     tag = EXC_TAGS.get(name)
     # Part of what a caller observes is WHICH handlers catch the exception. The library's exception classes are
     # pairwise unrelated (each derives from Exception directly); one that has become a subclass of another would be
@@ -643,6 +701,16 @@ class Reporter:
         }
         if extra_cov:
             cov.update(extra_cov)
+        cov["source_fingerprint"] = {
+            "changed_functions": ESCALATION["changed"],
+            "meaning": "functions of the modelled source whose text differs from the one the Gallina model was written against "
+                       "(harness/source_fingerprint.json); when non-empty the check re-runs its generators with further seeds "
+                       "before concluding",
+            "previous_runs_of_this_invocation": list(ESCALATION["previous_runs"]),
+        }
+        ESCALATION["previous_runs"].append({"seed": self.seed, "evaluations": self.evaluations,
+                                            "distinct_nontrivial": len(self.nontrivial), "violations": nviol,
+                                            "wall_s": round(time.time() - self.t0, 1)})
         write_evidence(prop, self.tier, self.seed, cov, time.time() - self.t0, nviol,
                        ["see coverage.trusted_base", partial_note] if partial_note else ["see coverage.trusted_base"])
         status = "ok" if nviol == 0 else "FAIL"
